@@ -346,7 +346,7 @@ func Unwrap2(f *ssa.Function) *ssa.Function {
 		for _, b := range f.Blocks {
 			for _, in := range b.Instrs {
 				if ci, ok := in.(ssa.CallInstruction); ok {
-					if sc := ci.Common().StaticCallee(); sc != nil && BaseName(sc) == BaseName(f) {
+					if sc := ci.Common().StaticCallee(); sc != nil && BaseNameRaw(sc) == strings.TrimSuffix(strings.TrimSuffix(BaseNameRaw(f), "$bound"), "$thunk") {
 						target = sc
 						n++
 					}
@@ -392,4 +392,46 @@ func FuncValue(v ssa.Value) *ssa.Function {
 		return FuncValue(t.X)
 	}
 	return nil
+}
+
+// WithClosuresAndHandedOut returns fn, its closures, and every declared function whose value fn (or a
+// closure) hands to a call as an argument - `go f()` bodies written as named methods instead of
+// function literals (method values are unwrapped) - together with their closures.
+func WithClosuresAndHandedOut(fn *ssa.Function) []*ssa.Function {
+	out := WithClosures(fn)
+	seen := map[*ssa.Function]bool{}
+	for _, f := range out {
+		seen[f] = true
+	}
+	for _, f := range WithClosures(fn) {
+		for _, b := range f.Blocks {
+			for _, in := range b.Instrs {
+				ci, ok := in.(ssa.CallInstruction)
+				if !ok {
+					continue
+				}
+				vals := append([]ssa.Value{}, ci.Common().Args...)
+				if _, isGo := in.(*ssa.Go); isGo {
+					vals = append(vals, ci.Common().Value)
+				}
+				for _, a := range vals {
+					g := FuncValue(a)
+					if g == nil {
+						continue
+					}
+					g = Unwrap2(g)
+					if g == nil || seen[g] || len(g.Blocks) == 0 || g.Parent() != nil {
+						continue
+					}
+					for _, h := range WithClosures(g) {
+						if !seen[h] {
+							seen[h] = true
+							out = append(out, h)
+						}
+					}
+				}
+			}
+		}
+	}
+	return out
 }
